@@ -30,15 +30,15 @@ TEXT = {
    note='Correct nodes run a harness consensus strategy, application and timers; the network, Byzantine behaviour and crashes are simulated; a panic of an engine goroutine kills the worker and is classified by the runner (counted as aborted for properties other than C09). Runs are sampled, not enumerated.', ref='4/C09'),
  'C02': dict(
    technique='deterministic simulation: multi-node engine world with crash-restart on the same stores; recording signer wrapper as monitor',
-   text='Monitor level: across all runs and restarts the set of distinct sign bytes presented to each correct validator key per (kind, height, round) must have at most one element. The state-machine-level part adds adversarial strategy answers and checks that every signature is in the action store before it is released to the mirror; the crash enumeration of C10 restarts the validator inside rounds in which it has already voted.',
+   text='Monitor level: across all runs and restarts the set of distinct sign bytes presented to each correct validator key per (kind, height, round) must have at most one element. The state-machine-level part adds adversarial strategy answers (also a second proposal in one round) and action store writes that fail, and checks that every signature is in the action store before it is released to the mirror and that nothing whose save failed is released; the crash enumeration of C10 restarts the validator inside rounds in which it has already voted.',
    note='Correct nodes run a harness consensus strategy, application and timers; the network, Byzantine behaviour and crashes are simulated; a panic of an engine goroutine kills the worker and is classified by the runner (counted as aborted for properties other than C09). Runs are sampled, not enumerated.', ref='4/C02'),
  'C04': dict(
    technique='deterministic simulation: multi-node engine world with crash-restart; shadow of every committed-header and mirror-store write',
-   text='After every store write of every correct node: a committed height never changes hash, no gaps, each header names the stored predecessor hash, voting position monotone and one above committing; once nothing is left to run the persisted position is in step with the committed-header store. The single-node adversarial part adds conflicting certificates, replays and proposals that name a foreign (also a certified foreign) predecessor for the voting and the next round; a crash-restart part walks a crash through the store writes of honest histories.',
+   text='After every store write of every correct node: a committed height never changes hash, no gaps, each header names the stored predecessor hash, voting position monotone (in the mirror store and in the views the node publishes, across restarts too) and one above committing; once nothing is left to run the persisted position is in step with the committed-header store. The single-node adversarial part adds conflicting certificates, replays and proposals that name a foreign (also a certified foreign) predecessor for the voting and the next round; a crash-restart part walks a crash through the store writes of honest histories.',
    note='Correct nodes run a harness consensus strategy, application and timers; the network, Byzantine behaviour and crashes are simulated; a panic of an engine goroutine kills the worker and is classified by the runner (counted as aborted for properties other than C09). Runs are sampled, not enumerated.', ref='4/C04'),
  'C10': dict(
    technique='deterministic simulation with enumerated crash points: one real engine on recording store wrappers driven by a scripted honest history; process death after every store write (every write is a scheduling point), restart by tmengine.New on the same stores, peers resend; end state compared with the scripted chain',
-   text='Fault enumeration over the store-write positions of seeded scripted histories (a batch of consecutive seeds shares one script and walks the crash position through writes 1..72; 25% of the runs add a second crash during recovery), plus sampled crash/restart of correct nodes in the multi-node world. Oracles: New returns no error; positions recorded after the restart are not behind the durable ones; the first published views of the resumed rounds contain every stored proposal and vote (and they verify); no finalization is re-saved with other content; stored committed headers stay what was saved; once nothing is left to do the committed-header store equals the scripted chain and every decided height is finalized; proposals the strategy had been offered in a round before the stop are offered again when it re-enters that round; the persisted position ends in step with the committed-header store; a panic of the engine after a restart counts as not resumed. The scripted histories include genuine replayed headers. Not exhaustive over schedules between writes (sampled) or over histories.',
+   text='Fault enumeration over the store-write positions of seeded scripted histories (a batch of consecutive seeds shares one script and walks the crash position through writes 1..72; 25% of the runs add a second crash during recovery), plus sampled crash/restart of correct nodes in the multi-node world. Oracles: New returns no error; positions recorded after the restart are not behind the durable ones; the first published views of the resumed rounds contain every stored proposal and vote (and they verify); a recorded vote that the restarted state machine hands to its mirror again carries the sign bytes of its kind, round and target and a signature that verifies; no finalization is re-saved with other content; stored committed headers stay what was saved; once nothing is left to do the committed-header store equals the scripted chain and every decided height is finalized; proposals the strategy had been offered in a round before the stop are offered again when it re-enters that round; the persisted position ends in step with the committed-header store; a panic of the engine after a restart counts as not resumed. The scripted histories include genuine replayed headers. Not exhaustive over schedules between writes (sampled) or over histories.',
    note='The seven in-memory stores are the durable state (the store objects survive, everything else is dropped); crash = context cancellation + no further writes from the dead incarnation. Strategy, application and timers of the node are harness code; the peers are a scripted environment that resends the current round and regossips decided heights after a restart. Liveness is judged only at quiescence (nothing enabled), never by a step bound.', ref='4/C10'),
  'C11': dict(
    technique='deterministic simulation: multi-node engine world; every view is observed right after its consumer received it',
